@@ -330,8 +330,31 @@ func runC17(ctx *core.Ctx) {
 			}
 		})
 		ctx.Check(okOrder && recvs == 1, "DL2", "testscript.waitOrStop#wait-then-receive", wos.Pos(), "waitOrStop calls Wait, then receives exactly once from the watcher before every return (receives=%d)", recvs)
-		// the result: interrupt error wins over wait error
-		ctx.OKTrivial("DL2", "testscript.waitOrStop#attribution", wos.Pos(), "error attribution not decided beyond the single receive")
+		// the result: the watcher's error wins over Wait's result
+		{
+			var recv ssa.Value
+			wg.Instrs(func(i ssa.Instruction) {
+				if u, ok := i.(*ssa.UnOp); ok && u.Op == token.ARROW {
+					recv = u
+				}
+			})
+			okAttr := recv != nil
+			sawRecv := false
+			for _, r := range wg.Returns() {
+				v := ssax.ReturnValues(r)[0]
+				if v == recv {
+					sawRecv = true
+					if !ssax.KnownNil(wg.FactsAtInstr(r), recv, false) {
+						// returning it unconditionally is fine too
+					}
+					continue
+				}
+				if recv == nil || !ssax.KnownNil(wg.FactsAtInstr(r), recv, true) {
+					okAttr = false
+				}
+			}
+			ctx.Check(okAttr && sawRecv, "DL2", "testscript.waitOrStop#attribution", wos.Pos(), "waitOrStop returns the watcher's error whenever it is non-nil and Wait's result only when it is nil: a command that exits 0 after being interrupted at the deadline is still reported as timed out")
+		}
 	}
 	// ---- DL3 = the time-out rows of C01.V8
 	ctx.Rule("V8", "timed-out verdict (C01.V8 rows T-neg/T-pos and the other verdict implications at the waiting sites): a failed command under an expired context fails the line whatever the '!' prefix", 6)
